@@ -32,9 +32,9 @@ def classify(case, expected, observed, shrunk=None, opt_only=False):
     ov, ol = _split_log(observed)
     constructs = "+".join((shrunk or {}).get("constructs", [])) or "?"
     if "hostpanic" in observed:
-        m = re.search(r"hostpanic: (.{0,40})", observed)
-        msg = re.sub(r"[^A-Za-z0-9]+", "_", m.group(1) if m else "").strip("_")[:32]
-        return "host-panic:" + msg
+        m = re.search(r"hostpanic: (.*?)(?: \(log|$)", observed)
+        words = re.sub(r"[^A-Za-z0-9 ]+", " ", m.group(1) if m else "").split()[:3]
+        return "host-panic:" + "_".join(words)
     if "(err other parse" in observed:
         return "printer-or-parser:" + constructs
     origin = "optimizer" if opt_only else "core"
